@@ -231,8 +231,9 @@ def _id_probe(exe, launcher, top, tag, site, ruid, euid, owner, res, key_owner=N
             os.chown(dd, owner, 0)
             os.chmod(dd, 0o755)
             dd = os.path.join(dd, "k2")
-            os.mkdir(dd, 0o755)
-        os.chown(dd, euid, 0)
+            os.mkdir(dd, 0o755)         # stays root's: acceptable whichever uid the test consults
+        else:
+            os.chown(dd, euid, 0)
         os.chmod(dd, 0o755)
         paths[f] = os.path.join(dd, f)
     paths["lock"] = paths["sock"] + ".lock"
